@@ -129,6 +129,7 @@ class Interp:
         self.fns = [self._mk_fn(i) for i in range(len(self.specs))]
         self.afns = [self._mk_async_fn(i) for i in range(len(self.specs))]
         self.pending_clears = 0
+        self.sleeping = 0
         self.waiters_on_event = {}
         if case.get("sentinels", True):
             for e in range(NEV):
@@ -184,7 +185,11 @@ class Interp:
                 self.stack.pop()
                 self.ctx = old
             self._log("INV_END", inv, None, None)
-            await asyncio.sleep(sp["wait"][1] / 1000.0)
+            self.sleeping += 1
+            try:
+                await asyncio.sleep(sp["wait"][1] / 1000.0)
+            finally:
+                self.sleeping -= 1
             self._log("CLEAR", inv, pid, self._t())
         ahandler.__name__ = "ah%d" % i
         return ahandler
@@ -405,7 +410,13 @@ class Interp:
             elif op[0] == "advance":
                 self.rig.advance(op[1] / 1000.0)
         self._log("SETTLE")
-        self.rig.advance(2.0)     # longer than every generated wait: bounded-liveness horizon
+        # bounded-liveness horizon: as long as a clear scheduled by the program itself is still outstanding keep going
+        # (a self-nesting program can chain a few dozen 50 ms waits), then 2 s more than every generated wait
+        for _ in range(400):
+            if self.pending_clears <= 0 and self.sleeping <= 0:
+                break
+            self.rig.advance(0.25)
+        self.rig.advance(2.0)
         self._log("END")
         return self.log
 
@@ -480,7 +491,7 @@ class Oracle:
 
         for pid, p in posts.items():
             self.check_dispatch(p)
-        if self.sentinels:
+        if self.sentinels and getattr(self, "order_checks", True):
             self.check_order(order)
         self.check_callbacks()
         return self.vio
@@ -559,9 +570,12 @@ class Oracle:
         stop_prio = self.prio(invs[stopped_at]["spec"]) if stopped_at is not None else None
 
         # (4) delivery counts
-        live0 = self.live_at(first)
+        # a queue event's dispatch begins when its task starts, somewhere between the post and the first logged
+        # invocation (an async handler logs only once its coroutine runs): registry changes in that window are undecided
+        begin = p["pos"] if isq else first
+        live0 = self.live_at(begin)
         changes = [(pos, kind, insts, ctx) for pos, kind, insts, spec, ctx in self.reg_events
-                   if first <= pos <= (last if last is not None else first)]
+                   if begin <= pos <= (last if last is not None else first)]
         added_inside = set()
         removed_inside = {}
         for pos, kind, insts, ctx in changes:
@@ -754,9 +768,9 @@ class Oracle:
                     while todo:
                         c = todo.pop()
                         cp = self.posts[c]
-                        todo.extend(kids.get(c, []))
                         if cp["type"] == "queue":
-                            continue
+                            continue    # runs in its own task; what its handlers post is not part of this dispatch
+                        todo.extend(kids.get(c, []))
                         if self.sentinels and (not cp["invs"] or self.invs[cp["invs"][-1]]["end"] is None or
                                                self.invs[cp["invs"][-1]]["end"] > cbpos):
                             self.v("callback-before-subtree", "callback of pid %d ran before pid %d (posted while handling "
